@@ -47,6 +47,68 @@ def load_known():
     return json.load(open(p)).get("findings", [])
 
 
+
+def _child(conn, args):
+    try:
+        conn.send(_run(args))
+    except BaseException as ex:          # noqa: report instead of dying silently
+        try:
+            conn.send({"__crash__": "%s: %s" % (type(ex).__name__, ex)})
+        except Exception:
+            pass
+    finally:
+        conn.close()
+
+
+def run_jobs(jobs, nproc, packs, verbose=None):
+    """Run every job in its own process, at most nproc at a time, with a HARD time limit: the soft limit inside the worker
+    (SIGALRM) cannot interrupt a long call into z3 / sympy; a worker that overruns it by a margin is killed and reported as
+    a task error (which the driver reports as the failed obligation <task>.contract_applies_to_current_code)."""
+    pending = list(enumerate(jobs))
+    running = {}
+    results = [None] * len(jobs)
+    while pending or running:
+        while pending and len(running) < nproc:
+            k, job = pending.pop(0)
+            pc, cc = multiprocessing.Pipe(False)
+            pr = multiprocessing.Process(target=_child, args=(cc, job))
+            pr.start()
+            cc.close()
+            task = packs[job[0]].tasks[job[1]]
+            hard = int((task.timeout or 600) * job[3].get("scale", 1)) * 1.5 + 120
+            running[k] = (pr, pc, time.time(), hard, job)
+        done = []
+        for k, (pr, pc, t0, hard, job) in running.items():
+            r = None
+            if pc.poll(0):
+                try:
+                    r = pc.recv()
+                except EOFError:
+                    r = {"__crash__": "worker died without a result"}
+            elif not pr.is_alive():
+                r = {"__crash__": "worker died without a result (exit code %s)" % pr.exitcode}
+            elif time.time() - t0 > hard:
+                pr.kill()
+                r = {"__crash__": "HARD TIMEOUT after %ds (worker killed)" % int(hard)}
+            if r is not None:
+                if "__crash__" in r:
+                    task = packs[job[0]].tasks[job[1]]
+                    r = {"task": task.name, "fn": task.fn, "obligations": [], "error": "CRASH: " + r["__crash__"], "paths": 0,
+                         "functions": {}, "wall": round(time.time() - t0, 1), "pack": job[0]}
+                results[k] = r
+                done.append(k)
+                if verbose:
+                    verbose(r)
+        for k in done:
+            pr, pc = running[k][0], running[k][1]
+            pr.join(5)
+            pc.close()
+            del running[k]
+        if not done:
+            time.sleep(0.05)
+    return results
+
+
 def main(argv=None):
     import argparse
     ap = argparse.ArgumentParser()
@@ -74,6 +136,9 @@ def main(argv=None):
     atexit.register(shutil.rmtree, ndir, True)
     budget = {"scale": 1 if tier == "quick" else 5, "z3_ms": 20000 if tier == "quick" else 120000,
               "polyid_s": 60 if tier == "quick" else 400, "cvc5_s": 15 if tier == "quick" else 90}
+    if tier == "thorough":
+        # second opinion by cvc5 on up to 25 of the z3-proved obligations of every task that took z3 >= 50 ms
+        budget.update(second_opinion=True, second_opinion_per_task=25, second_opinion_min_s=0.05)
     jobs = []
     for pi, p in enumerate(packs):
         for ti, t in enumerate(p.tasks):
@@ -87,11 +152,9 @@ def main(argv=None):
         pool.map(_warm, files)
     results = []
     if jobs:
-        with multiprocessing.Pool(min(a.jobs, len(jobs))) as pool:
-            for r in pool.imap_unordered(_run, jobs, chunksize=1):
-                results.append(r)
-                if a.v:
-                    print("  task %-60s %3d obl %6.1fs %s" % (r["task"], len(r["obligations"]), r["wall"], r["error"] or ""), flush=True)
+        def show(r):
+            print("  task %-60s %3d obl %6.1fs %s" % (r["task"], len(r["obligations"]), r["wall"], r["error"] or ""), flush=True)
+        results = run_jobs(jobs, min(a.jobs, len(jobs)), packs, show if a.v else None)
     # second chance for obligations that were neither proved nor refuted (solver timeouts under machine load must not flip a
     # verdict): the tasks concerned are re-run a few at a time with a 5x budget
     retry = [i for i, r in enumerate(results) if any(o["verdict"] == "undecided" for o in r["obligations"]) or
@@ -105,8 +168,7 @@ def main(argv=None):
         rjobs = [(name2job[(results[i]["pack"], results[i]["task"])][0], name2job[(results[i]["pack"], results[i]["task"])][1], prop, b2)
                  for i in retry]
         os.environ["VERIF_OBL_PAR"] = "2"
-        with multiprocessing.Pool(min(4, len(rjobs))) as pool:
-            redo = pool.map(_run, rjobs, chunksize=1)
+        redo = run_jobs(rjobs, min(4, len(rjobs)), packs)
         for i, r2 in zip(retry, redo):
             before = sum(1 for o in results[i]["obligations"] if o["verdict"] == "undecided")
             after = sum(1 for o in r2["obligations"] if o["verdict"] == "undecided")
@@ -259,6 +321,10 @@ def finish(prop, tier, seed, packs, results, t0, a):
             "by_backend": by_backend,
             "trivial_by_simplification": len(proved) - len(nontrivial),
             "solver_time_s": round(sum(o["time"] for o in obls), 2),
+            "second_opinions_cvc5": {"asked": sum(1 for o in obls if o.get("second_opinion")),
+                                     "agreed": sum(1 for o in obls if o.get("second_opinion") == "cvc5 agrees"),
+                                     "no_answer": sum(1 for o in obls if o.get("second_opinion") and o.get("second_opinion") != "cvc5 agrees" and "cvc5 sat" not in str(o.get("second_opinion"))),
+                                     "disagreed": sum(1 for o in obls if "cvc5 sat" in str(o.get("second_opinion")))},
             "known_findings_failing": [o["name"] for (o, k) in known_hit],
             "not_discharged": [{"obligation": o["name"], "verdict": o["verdict"], "detail": o["detail"][:200]} for o in violations],
             "task_errors": [{"task": t, "error": e} for (t, e, _tr) in errors],
